@@ -23,6 +23,26 @@ func boxedVarsOf(fi *FuncInfo) map[types.Object]bool {
 	out := map[types.Object]bool{}
 	info := fi.Pkg.TypesInfo
 	ast.Inspect(fi.Decl, func(n ast.Node) bool {
+		// x.M() with a pointer-receiver method on an addressable struct variable takes &x implicitly
+		if call, ok := n.(*ast.CallExpr); ok {
+			if sel, ok := unparen(call.Fun).(*ast.SelectorExpr); ok {
+				if s := info.Selections[sel]; s != nil && s.Kind() == types.MethodVal && len(s.Index()) == 1 {
+					if fn, ok := s.Obj().(*types.Func); ok {
+						if rs := fn.Type().(*types.Signature).Recv(); rs != nil {
+							_, wantPtr := types.Unalias(rs.Type()).(*types.Pointer)
+							if id, ok := unparen(sel.X).(*ast.Ident); ok && wantPtr {
+								if v, ok := info.ObjectOf(id).(*types.Var); ok && !isGlobal(v) {
+									if st, named, isPtr := structOf(v.Type()); st != nil && !isPtr && !opaqueNamed(named) {
+										out[v] = true
+									}
+								}
+							}
+						}
+					}
+				}
+			}
+			return true
+		}
 		u, ok := n.(*ast.UnaryExpr)
 		if !ok || u.Op != token.AND {
 			return true
@@ -164,6 +184,26 @@ func (w *World) verifyFunc(fi *FuncInfo, props []string) (res *FuncResult) {
 	}
 	fx.ret = []*retCtx{rc}
 	fx.entry = st // specs evaluated at entry see this state; replaced by a snapshot below
+	if fi.Lit != nil {
+		// captured variables of the enclosing function(s) are inputs of the literal: one symbolic value each, fixed at entry
+		seen := map[types.Object]bool{}
+		ast.Inspect(fi.Lit.Body, func(n ast.Node) bool {
+			id, ok := n.(*ast.Ident)
+			if !ok {
+				return true
+			}
+			v, ok := fi.Pkg.TypesInfo.Uses[id].(*types.Var)
+			if !ok || v.IsField() || isGlobal(v) || seen[v] {
+				return true
+			}
+			if v.Pos() >= fi.Lit.Pos() && v.Pos() <= fi.Lit.End() {
+				return true // declared inside the literal
+			}
+			seen[v] = true
+			fx.ensureVar(st, v)
+			return true
+		})
+	}
 	// requires
 	if fi.Spec != nil {
 		for _, r := range fi.Spec.Requires {
@@ -247,7 +287,7 @@ func (w *World) verifyFunc(fi *FuncInfo, props []string) (res *FuncResult) {
 		}
 	}
 	if fi.Spec != nil && fi.Spec.Flags["emits"] == "opaque" {
-		phi := fmt.Sprintf("(forall ((k!p Int)) (=> (and (<= %s k!p) (< k!p %s)) (>= (ev_kind (select %s k!p)) %d)))", fx.entry.evlen, exit.evlen, exit.evlog, evKinds["Call"])
+		phi := fmt.Sprintf("(forall ((k!p Int)) (=> (and (<= %s k!p) (< k!p %s)) (>= (ev_kind (select %s k!p)) %d)))", fx.entry.evlen, exit.evlen, exit.evlog, evKinds["Other"])
 		c.oblige(exit, "post", "emits.opaque", phi, "emits only opaque events (of unknown callbacks)", w.pos(fi.Body.Rbrace))
 	}
 	if fi.Spec != nil && (len(fi.Spec.EmitsC) > 0 || fi.Spec.Flags["emits"] == "none") {
